@@ -17,6 +17,7 @@
 # LIABILITY, WHETHER IN AN ACTION OF CONTRACT, TORT OR OTHERWISE, ARISING FROM,
 # OUT OF OR IN CONNECTION WITH THE SOFTWARE OR THE USE OR OTHER DEALINGS IN
 # THE SOFTWARE.
+from math import isfinite
 from time import time
 from operator import itemgetter
 import json
@@ -95,8 +96,11 @@ class TextReporter(Reporter):
             out[-1] = num_samples # can just overwrite the last value, which is the run_id_id
             if num_samples == 0:
                 out.append("Failed")
-            else:
+            elif isfinite(mean):
                 out.append(int(round(mean, 0)))
+            else:
+                # a harness reported inf or nan as total, there is no integer for that
+                out.append(str(mean))
 
             for i, v in enumerate(out):
                 column_value_sets[i].add(v)
